@@ -356,6 +356,18 @@ func ruleSibCallback(c *Ctx, r *R) {
 				idxVal := elems[int64(len(elems)-2)]
 				desc, okT := indexArgIsNumber(idxVal)
 				r.check(okT, fmt.Sprintf("Array.prototype.%s:call#%d", name, n), c.Pos(instrPos(ins)), "index argument is "+desc, fmt.Sprintf("Array.prototype.%s passes %s as the callback's index argument: ES5 §15.4.4.16-22 pass the numeric index k (typeof i must be \"number\")", name, desc))
+				// the last argument is the object O = ToObject(this): objectValue(<result of thisObject()>), never call.This itself
+				objVal := elems[int64(len(elems)-1)]
+				if mi, ok := objVal.(*ssa.MakeInterface); ok {
+					objVal = mi.X
+				}
+				okObj := false
+				if oc, ok := objVal.(*ssa.Call); ok && oc.Call.StaticCallee() != nil && oc.Call.StaticCallee().Name() == "objectValue" && len(oc.Call.Args) == 1 {
+					if src, ok := oc.Call.Args[0].(*ssa.Call); ok && src.Call.StaticCallee() != nil && src.Call.StaticCallee().Name() == "thisObject" {
+						okObj = true
+					}
+				}
+				r.check(okObj, fmt.Sprintf("Array.prototype.%s:object#%d", name, n), c.Pos(instrPos(ins)), "object argument is ToObject(this)", fmt.Sprintf("Array.prototype.%s must pass O = ToObject(this value) as the callback's last argument (ES5 §15.4.4.16-22 step 1): for a primitive receiver (Array.prototype.%s.call(\"ab\", f)) the callback otherwise sees the primitive instead of one stable wrapper object", name, name))
 			}
 		}
 		if n == 0 {
